@@ -23,8 +23,8 @@ RULE = (
 ASSUMPTIONS = ["output directories exist", "clean backend (no tracked jobs), sources dated in the past"]
 
 
-QUICK_BUDGET = {"cases": 480, "deadline_s": 170, "case_timeout_s": 60, "floors": {"touch_runs": 168, "edges_ordered": 518, "status_rows": 583, "contents_compared": 2000}}
-THOROUGH_FACTOR = 50  # thorough = the same workload with 50x the cases (floors scale along)
+QUICK_BUDGET = {"cases": 1440, "deadline_s": 170, "case_timeout_s": 60, "floors": {"touch_runs": 504, "edges_ordered": 1554, "status_rows": 1749, "contents_compared": 6000}}
+THOROUGH_FACTOR = 17  # thorough = the same workload with 17x the cases (floors scale along)
 
 
 def budget(tier):
